@@ -77,9 +77,13 @@ class Source:
         mod = ast.Module(body=[node], type_ignores=[])
         ast.fix_missing_locations(mod)
         code = compile(mod, self.path(module), 'exec')
-        ns = dict(namespace)
+        # helpers compiled into the same namespace must see each other: exec in the caller's dict
+        ns = namespace
+        saved = ns.get(node.name, None)
         exec(code, ns)
         fn = ns[node.name]
+        if saved is not None:
+            ns[node.name] = saved        # keep the contract stub for calls by name; the compiled function is returned
         fn.__pyvc_ns__ = ns
         return fn
 
